@@ -40,12 +40,18 @@ ERRS = {
     "bad-regex-match": 'match G(x=regex("("))',
     "unknown-ref-match": "match $nope.Finished()",
     "bad-member": "match $a.Finished()",
+    # the faulty match shares its flow with a second head waiting for the same event name (or-group alternatives)
+    "bad-regex-or-first": 'match G(x=regex("(")) or G(x="ok")',
+    "bad-regex-or-last": 'match G(x="ok") or G(x=regex("("))',
+    "bad-regex-and": 'match G(x=regex("(")) and F()',
 }
-MATCH_TIME = ("bad-regex-match", "unknown-ref-match", "bad-member")
+MATCH_TIME = ("bad-regex-match", "unknown-ref-match", "bad-member", "bad-regex-or-first", "bad-regex-or-last", "bad-regex-and")
+REGEX_KINDS = ("bad-regex-match", "bad-regex-or-first", "bad-regex-or-last", "bad-regex-and")
 
 HEADER = '''flow main
   activate witness e
   activate witness f
+  activate witness g
   activate errwatch
   start victim
   match Never()
@@ -60,10 +66,21 @@ flow witness f
   match F()
   send OutWF()
 
+@loop("wg")
+flow witness g
+  match G()
+  send OutWG()
+
 @loop("ew")
 flow errwatch
   match ColangError() as $e
   send SawError()
+
+@loop("v")
+flow vhelper
+  match G() or F()
+  match G()
+  match G()
 
 @loop("v")
 flow victim
@@ -73,6 +90,9 @@ flow victim
 def gen_victim(rng):
     """returns list of (indent, text) lines; the first wait is at a known index"""
     lines = [(1, "$a = 1"), (1, "match E()")]
+    if rng.random() < 0.5:
+        # a descendant of the victim waiting for the same event names as the (later) faulty match
+        lines.insert(1, (1, "start vhelper"))
     n = rng.randint(3, 6)
     k = 0
     for _ in range(n):
@@ -181,7 +201,8 @@ def cases(tier, seed):
     for k in range(nv):
         rng = random.Random(base + k)
         lines = gen_victim(rng)
-        positions = list(range(2, len(lines)))  # after `$a = 1` and the first wait `match E()`
+        first_wait = next(i for i, (_, t) in enumerate(lines) if t == "match E()")
+        positions = list(range(first_wait + 1, len(lines)))  # after the victim's first wait `match E()`
         i += 1
         yield {"id": i, "fam": "iso-base", "seed": base + k}
         for pos in positions:
@@ -265,7 +286,7 @@ async def _drive(src, hist):
 
 
 def witness_proj(outs):
-    return [[x for x in step if x in ("OutWE", "OutWF")] for step in outs]
+    return [[x for x in step if x in ("OutWE", "OutWF", "OutWG")] for step in outs]
 
 
 _BASE_CACHE = {}
@@ -328,7 +349,7 @@ def run_iso(case):
             obs["marker_lost"] = 1
         if k is None:
             return dict(res, verdict="inconclusive", reason="expected:fault-position-not-reached", observed=obs, nontrivial=False)
-        if kind == "bad-regex-match" and "G" not in hist[k:]:
+        if kind in REGEX_KINDS and "G" not in hist[k:]:
             # an invalid pattern is only evaluated when an event of that name arrives
             return dict(res, verdict="inconclusive", reason="expected:fault-not-triggered", observed=obs, nontrivial=False)
         obs["witness_events_after_fault"] = sum(len(x) for x in wbase[k:])
